@@ -20,8 +20,8 @@ theorem extracted_table_disciplined :
 theorem extracted_no_race (M : List Op → Prop) (n : Nat) (s : State) (h : Reach lockTable.paths M n s) : ¬ Race s :=
   structured_no_race lockTable M guardOf extracted_table_disciplined.1 extracted_table_disciplined.2 n s h
 
-/-- executable instance: one complete path per extracted event as worker table, the (undisciplined) main-phase events as
-    main table, any number of workers, any schedule -/
+/-- executable instance ONLY (one canonical complete path per extracted event as worker table, the undisciplined main-phase
+    events as main table); strictly weaker than `extracted_no_race`, which covers all paths -/
 theorem extracted_flat_no_race :
     ∀ (n : Nat) (σ : List Sched), ¬ Race (run ⟨lockTable.map Stmt.somePath, mainTable.map Stmt.somePath⟩ n σ) := by
   intro n σ
@@ -32,8 +32,27 @@ theorem extracted_flat_no_race :
   exact structured_paths_disciplined lockTable guardOf extracted_table_disciplined.1 extracted_table_disciplined.2 _
     ⟨s, hs, true, somePath_path s⟩
 
-/-- the locations the property record names are guarded by the mutexes it names -/
+/-- the nine (location, mutex) pairs of the property record (ThreadData::mFileSync ×4, SyncLogForwarder::mReportSync,
+    Executor::mErrorListSync, SuppressionList::mSuppressionsSync ×2, TimerResults::mResultsSync) are all present in the
+    extracted table and are the guards the translator inferred -/
 theorem extracted_anchor_guards :
-    anchorGuards.all (fun p => guardOf p.1 == Guard.mutex p.2) = true := by decide
+    anchorGuards.length = 9 ∧ anchorGuards.all (fun p => guardOf p.1 == Guard.mutex p.2) = true := by decide
+
+/-- non-vacuity on the extracted table itself: two workers start the witness event (`SyncLogForwarder::reportOut` on the
+    current tree); after worker 1 executed its `acq` it holds exactly one mutex, and worker 2 — although scheduled twice — is
+    still in front of its first operation (blocked on the same mutex), holding nothing -/
+theorem extracted_table_runs :
+    let T : Tables := ⟨lockTable.map Stmt.somePath, mainTable.map Stmt.somePath⟩
+    let s := run T 2 [.spawn, .start 1 witnessEvent, .start 2 witnessEvent, .exec 1, .exec 2, .exec 2]
+    s.phase = .par ∧ s.threads[1]?.map (·.held.length) = some 1 ∧ s.threads[2]?.map (·.held) = some [] ∧
+      s.threads[2]?.map (·.rest) = T.worker[witnessEvent]? ∧ (T.worker[witnessEvent]?.bind List.head?).isSome = true := by
+  decide
+
+/-- … and the same event with its lock operations removed is a race between two workers: the discipline check is what
+    excludes it, not the shape of the table -/
+theorem extracted_witness_unlocked_races :
+    Race (run ⟨[((lockTable.map Stmt.somePath)[witnessEvent]?.getD []).filter (fun o => !o.isLock)], []⟩ 2
+      [.spawn, .start 1 0, .start 2 0]) := by
+  rw [race_iff_raceB]; decide
 
 end Cppcheck.Lockset
